@@ -17,6 +17,7 @@ eq_refl eq_symm eq_trans deepcopy_eq eq_iff_same_function eq_implies_same_functi
 eq_same_durations_iff eq_total_duration eq_detects_operator_count eq_detects_basis
 eq_detects_operator_or_identifier eq_detects_duration eq_detects_term slice_spec slice_entries
 slice_wf slice_full index_spec slice_concat_roundtrip'''.split()
+PINS = ['pinJoinEqualSegments']
 GEN_SITES = ['const:pulse_sequence.__eq__']
 COMPONENTS = ['parse_hamiltonian', 'join_segments', 'pulse_eq', 'slice']
 RULES = ['correspondence: _parse_Hamiltonian (default / given / mixed identifiers), '
@@ -51,8 +52,18 @@ def rand_ham(rng, n, names, ops, lo=0, hi=2):
 def rand_pulse(rng, names_c=('A', 'B', 'C', 'A_0', 'A_1'), names_n=('N', 'M', 'N_1'), zero_dt=True,
                ops_c=(1, 2, 3, 4), ops_n=(5, 6, 7)):
     n = rng.randint(1, 5)
-    return (rand_ham(rng, n, list(names_c), list(ops_c)), rand_ham(rng, n, list(names_n), list(ops_n), 1, 2),
-            [rng.randint(0 if zero_dt else 1, 3) for _ in range(n)],
+    hc, hn = rand_ham(rng, n, list(names_c), list(ops_c)), rand_ham(rng, n, list(names_n), list(ops_n), 1, 2)
+    if rng.random() < 0.5:
+        # runs of equal consecutive segments (lengths 1..5): every coefficient row is expanded with
+        # the same repetition counts, the durations stay independent
+        reps = [rng.choice([1, 1, 2, 3, 4, 5]) for _ in range(n)]
+        while sum(reps) > 9:
+            reps[reps.index(max(reps))] -= 1
+        ex = lambda c: [x for x, r in zip(c, reps) for _ in range(r)]  # noqa
+        hc = [(o, i, ex(c)) for o, i, c in hc]
+        hn = [(o, i, ex(c)) for o, i, c in hn]
+        n = sum(reps)
+    return (hc, hn, [rng.randint(0 if zero_dt else 1, 3) for _ in range(n)],
             rng.randint(0, 1) if rng.random() < .2 else 0)
 
 
@@ -236,6 +247,25 @@ def check_equality(ctx, case):
         T = gens.build(v2)
         if (S == A) and (A == T) and not (S == T):
             probs.append('equality not transitive')
+        # the same segment written as a run of k = 3..5 equal pieces
+        k = int(rng.integers(3, 6))
+        repk = np.concatenate((np.arange(g), [g]*k, np.arange(g + 1, n)))
+        fr = rng.dirichlet(np.ones(k))
+        vk = dict(desc)
+        vk['c_coeffs'] = np.asarray(desc['c_coeffs'])[:, repk]
+        vk['n_coeffs'] = np.asarray(desc['n_coeffs'])[:, repk]
+        vk['dt'] = np.concatenate((desc['dt'][:g], desc['dt'][g]*fr, desc['dt'][g + 1:]))
+        K = gens.build(vk)
+        if not (A == K and K == A and K == S):
+            probs.append(f're-segmented pulse (run of {k} equal pieces) compares unequal')
+        # ... and with one piece made longer: a different pulse
+        vl = dict(vk)
+        dl = vk['dt'].copy()
+        dl[g + int(rng.integers(0, k))] *= 1.5
+        vl['dt'] = dl
+        Lg = gens.build(vl)
+        if (Lg == K) or (K == Lg) or (Lg == A):
+            probs.append(f'run of {k} equal pieces with one longer piece compares equal')
     # listing order
     pc, pn = rng.permutation(len(desc['c_opers'])), rng.permutation(len(desc['n_opers']))
     v = dict(desc)
